@@ -65,6 +65,26 @@ CATALOG['try_boxed_from_iter'] = lambda f, s, n: scenarios.op_try_from_iter(f, s
 CATALOG['heap.try_from_vec'] = lambda f, s, n: scenarios.from_heap(f, s, n, which='try_from_vec', name='heap.try_from_vec')
 CATALOG['heap.try_from_boxed_slice'] = lambda f, s, n: scenarios.from_heap(f, s, n, which='try_from_boxed_slice', name='heap.try_from_boxed_slice')
 CATALOG['iter.clone_from'] = lambda f, s, n: scenarios.iter_clone_from(f, s, n, name='iter.clone_from')
+def _heap_only(fn):
+    def w(f, s, n):
+        os.environ['MIRSYM_HEAP_ONLY'] = '1'
+        try:
+            r = fn(f, s, n)
+        finally:
+            del os.environ['MIRSYM_HEAP_ONLY']
+        # the stack.* scenarios state one obligation only (no whole-array frame); everything else about the same operations is decided
+        # by the scenarios of the same name without the prefix, under the properties they belong to
+        if r.verdict in ('pass', 'violation'):
+            r.findings = [x for x in r.findings if 'stack frame' in x['kind']]
+            r.verdict = 'violation' if r.findings else 'pass'
+        r.props = ['C15']
+        r.bounds += '; obligation: no frame with a by-value array of >= 256 KiB on a feasible path (size_of::<T>() symbolic)'
+        return r
+    return w
+CATALOG['stack.box_generate'] = _heap_only(lambda f, s, n: scenarios.op_generate(f, s, n, boxed=True, name='stack.box_generate'))
+CATALOG['stack.try_boxed_from_iter'] = _heap_only(lambda f, s, n: scenarios.op_try_from_iter(f, s, n, name='stack.try_boxed_from_iter', boxed=True))
+CATALOG['stack.box_from_iter'] = _heap_only(lambda f, s, n: scenarios.op_try_from_iter(f, s, n, name='stack.box_from_iter', boxed=True, entry='<Box<GenericArray<T, N>> as FromIterator<T>>::from_iter'))
+CATALOG['stack.box.map'] = _heap_only(lambda f, s, n: scenarios.box_ops(f, s, n, which='map', name='stack.box.map'))
 CATALOG['box.map'] = lambda f, s, n: scenarios.box_ops(f, s, n, which='map', name='box.map')
 CATALOG['box.fold'] = lambda f, s, n: scenarios.box_ops(f, s, n, which='fold', name='box.fold')
 CATALOG['clone_from'] = lambda f, s, n: scenarios.clone_from(f, s, n, name='clone_from')
